@@ -13,8 +13,10 @@ from .. import core, impl, sweep, models, par, workers
 from . import C17, C09
 
 CLAUSES = {"uncoupled", "unknown-gate"}
-# `metadata` (readout part = the circuit stored in the ReadoutInfo) is evaluated by the trace spec but NOT counted here: the property does not speak about it
-MEAS_CLAUSES = {"uncoupled", "unknown-gate", "outside", "prep-changed", "measure"}
+# Only what the property states is counted.  The trace spec also evaluates `metadata` (readout part = circuit stored in the ReadoutInfo), `outside`
+# (single-qubit gate on an unlisted qubit), `measure` (measure_all layout) - not counted.  If the delivered circuit does not start with the caller's
+# preparation circuit (`prep-changed`) the readout part cannot be identified: such a trace is recorded as unjudged, not as a violation.
+MEAS_CLAUSES = {"uncoupled", "unknown-gate"}
 
 
 def run(tier):
@@ -98,6 +100,9 @@ def run(tier):
     for t, (cl, _) in zip(mtraces, v):
         ck.count(("meas", t["n"], tuple(t["list"]), t["conn"], t["what"], t["index"], str(t["prep"])), any(g[2] >= 0 for g in t["gates"][t["preplen"]:]))
         bad = cl & MEAS_CLAUSES
+        if "prep-changed" in cl:
+            ck.cov["measurement_circuits_unjudged"] = ck.cov.get("measurement_circuits_unjudged", 0) + 1
+            continue
         if bad:
             ck.violation(f"meas {t['n']} {t['list']} {t['conn']} {t['what']} {t['index']}", f"{t['what']} measurement circuit N={t['n']} qubits={t['list']} conn={t['conn']} #{t['index']} fails {sorted(bad)}",
                          {"trace": t, "clauses": sorted(bad)})
